@@ -198,7 +198,16 @@ fn main() {
     for i in 0..args.n {
         let kind = if i % 2 == 0 { "U" } else { "I" };
         let nr = 3 + rng.below(3) as usize;
-        let case = gen_int_history(&mut rng, kind, nr, len, args.max_words);
+        let mut case = gen_int_history(&mut rng, kind, nr, len, args.max_words);
+        if i % 2 == 0 {
+            // storage-relative probes (see add_probes): the dry run is unguarded
+            let mut quiet = |f: &mut dyn FnMut()| -> Value {
+                f();
+                json!([])
+            };
+            let dry = run_history_opt(&case, &mut quiet, true);
+            add_probes(&mut case, &mut rng, kind, &dry["fin"]["t"]);
+        }
         run(&case, &mut done, &mut faults);
     }
     let _ = std::fs::remove_file(&cur_path);
